@@ -434,6 +434,37 @@ func doCallPara(ctx context.Context, r compose.Runnable[gspec.V, gspec.V], para 
 	return runResult{out: out, execs: execs}
 }
 
+// mixedClass: if the difference between the expected and the received payloads of a node concerns a value of
+// an Option that carries values of both option types, the class of that (narrower) violation; else "".
+func mixedClass(os []optSpec, want, got []string) string {
+	ws, gs := map[string]bool{}, map[string]bool{}
+	for _, w := range want {
+		ws[w] = true
+	}
+	for _, g := range got {
+		gs[g] = true
+	}
+	of := func(payload string) bool { // "A:<id>.<v>"
+		for _, o := range os {
+			if o.mixed() && strings.HasPrefix(payload[2:], o.ID+".") {
+				return true
+			}
+		}
+		return false
+	}
+	for _, g := range got {
+		if !ws[g] && of(g) {
+			return "one-option-with-values-of-two-types/value-delivered-to-node-it-does-not-address"
+		}
+	}
+	for _, w := range want {
+		if !gs[w] && of(w) {
+			return "one-option-with-values-of-two-types/value-not-delivered"
+		}
+	}
+	return ""
+}
+
 // judge: rerun (optional) repeats the call with other options (same input, same paradigm).
 func judge(rep *mon.Reporter, spec *gspec.GraphSpec, in gspec.V, os []optSpec, res runResult, how string, rerun ...func([]compose.Option) runResult) bool {
 	exp, mustFail, why := route(spec, os)
@@ -517,6 +548,9 @@ func judge(rep *mon.Reporter, spec *gspec.GraphSpec, in gspec.V, os []optSpec, r
 				cl = "did-not-receive-option-addressed-to-it"
 			case !extra && !missing:
 				cl = "wrong-order-or-multiplicity"
+			}
+			if mc := mixedClass(os, want, got); mc != "" {
+				cl = mc
 			}
 			rep.Violation(ID+"/"+cl+"/"+how, fmt.Sprintf("node %s received %v, the reference router delivers %v\noptions: %+v", e.Path, got, want, os), wit)
 			return false
